@@ -53,13 +53,10 @@ Definition tables0 : tables := {|
   t_dead_modules := ["widget"]
 |}.
 
-(* Deviations of the pinned sources that are genuine, reported, still OPEN defects (known_findings.json, property C18;
-   N_var_config and IntegratorWHFast512._p_jh were on this list until /repo commits ce86165 and 148876d fixed them).
-   The mirror theorem holds for every member NOT listed here; the check reports each entry still present. *)
-Definition known_deviations : list dev := [
-  ("Simulation", "python_unit_t", "python_unit_l", "name");
-  ("Simulation", "python_unit_l", "python_unit_m", "name");
-  ("Simulation", "python_unit_m", "python_unit_t", "name")].
+(* Deviations of the sources that are genuine, reported, still OPEN defects (known_findings.json, property C18): none.
+   History: Simulation.N_var_config (fixed ce86165), IntegratorWHFast512._p_jh (148876d), Simulation.python_unit_t/l/m (e063900).
+   With the empty list C18_mirror_exact_partial / C18_mirror_member_exact state the mirror property at full strength. *)
+Definition known_deviations : list dev := [].
 
 (* documentation paths (sim.<path> / r-><path>) -> python class, property, option dictionary ("" = named callbacks),
    normalisation the setter applies (Model.normalise) *)
